@@ -83,6 +83,8 @@ def _num(x, scale):
 
 
 def _unscale(v, scale):
+    if isinstance(v, bool) or not isinstance(v, (int, float)):
+        return None             # (verdicts are total: a non-numeric result matches no action)
     w = v * scale
     if isinstance(w, float):
         if not w.is_integer():
